@@ -2,6 +2,7 @@ package gen
 
 import (
 	"fmt"
+	"strings"
 
 	"pgregory.net/rapid"
 
@@ -30,6 +31,26 @@ type GraphSpec struct {
 	// Decoys adds look-alikes that are no dependencies: a parameter named like every service, referenced by every
 	// service, and on every service a tag named like the next service (names of different kinds live in different namespaces).
 	Decoys bool `json:"decoys,omitempty"`
+	// TodoSinks renders every service without outgoing references and without tags as a placeholder
+	// (`todo: true`), keeping its declared scope.
+	TodoSinks bool `json:"todo_sinks,omitempty"`
+	// Names: 0 = s<i> / t<i> / p<i>; 1 = dotted names built from one letter ("n", "n.n", "n.n.n", ...), so that
+	// concatenations of two names with a separator coincide for different pairs.
+	Names int `json:"names,omitempty"`
+}
+
+func (g GraphSpec) svc(i int) string {
+	if g.Names == 1 {
+		return "n" + strings.Repeat(".n", i)
+	}
+	return SvcName(i)
+}
+
+func (g GraphSpec) param(i int) string {
+	if g.Names == 1 {
+		return "n" + strings.Repeat(".n", i)
+	}
+	return ParamName(i)
 }
 
 func SvcName(i int) string   { return fmt.Sprintf("s%d", i) }
@@ -47,22 +68,22 @@ func (g GraphSpec) Config() cfg.Config {
 				if n > 0 {
 					text += ":"
 				}
-				text += "%" + ParamName(e[1]) + "%"
+				text += "%" + g.param(e[1]) + "%"
 				n++
 			}
 		}
 		if n == 0 {
 			text = fmt.Sprintf("v%d", i)
 		}
-		c.Params = append(c.Params, cfg.Param{Name: ParamName(i), Val: cfg.Str(text)})
+		c.Params = append(c.Params, cfg.Param{Name: g.param(i), Val: cfg.Str(text)})
 	}
-	if g.Decoys {
+	if g.Decoys && g.Names == 0 {
 		for j := 0; j < g.NSvc; j++ {
-			c.Params = append(c.Params, cfg.Param{Name: SvcName(j), Val: cfg.Str(fmt.Sprintf("decoy%d", j))})
+			c.Params = append(c.Params, cfg.Param{Name: g.svc(j), Val: cfg.Str(fmt.Sprintf("decoy%d", j))})
 		}
 	}
 	for i := 0; i < g.NSvc; i++ {
-		s := cfg.Service{Name: SvcName(i), Ctor: cfg.P("fx/lib.NewObj")}
+		s := cfg.Service{Name: g.svc(i), Ctor: cfg.P("fx/lib.NewObj")}
 		place := func(kind int, text string) {
 			switch kind {
 			case 1:
@@ -89,7 +110,7 @@ func (g GraphSpec) Config() cfg.Config {
 		}
 		for _, e := range g.SvcRefs {
 			if e[0] == i {
-				place(e[2], "@"+SvcName(e[1]))
+				place(e[2], "@"+g.svc(e[1]))
 			}
 		}
 		for _, e := range g.SvcTagged {
@@ -99,7 +120,7 @@ func (g GraphSpec) Config() cfg.Config {
 		}
 		for _, e := range g.SvcParams {
 			if e[0] == i {
-				place(0, "%"+ParamName(e[1])+"%")
+				place(0, "%"+g.param(e[1])+"%")
 			}
 		}
 		for _, e := range g.SvcTags {
@@ -107,12 +128,12 @@ func (g GraphSpec) Config() cfg.Config {
 				s.Tags = append(s.Tags, cfg.Tag{Name: TagName(e[1])})
 			}
 		}
-		if g.Decoys {
+		if g.Decoys && g.Names == 0 {
 			for j := 0; j < g.NSvc; j++ {
-				s.Args = append(s.Args, cfg.Str("%"+SvcName(j)+"%"))
+				s.Args = append(s.Args, cfg.Str("%"+g.svc(j)+"%"))
 			}
 			if g.NSvc > 1 {
-				s.Tags = append(s.Tags, cfg.Tag{Name: SvcName((i + 1) % g.NSvc)})
+				s.Tags = append(s.Tags, cfg.Tag{Name: g.svc((i + 1) % g.NSvc)})
 			}
 		}
 		switch g.Place {
@@ -134,13 +155,17 @@ func (g GraphSpec) Config() cfg.Config {
 		if i < len(g.Scopes) && g.Scopes[i] != "" {
 			s.Scope = cfg.P(g.Scopes[i])
 		}
+		if g.TodoSinks && len(s.Args)+len(s.Fields)+len(s.Calls)+len(s.Tags) == 0 {
+			yes := true
+			s = cfg.Service{Name: s.Name, Todo: &yes, Scope: s.Scope}
+		}
 		c.Services = append(c.Services, s)
 	}
 	for d, t := range g.DecTag {
 		dec := cfg.Decorator{Tag: TagName(t), Fn: "fx/lib.Decorate"}
 		for _, e := range g.DecRefs {
 			if e[0] == d {
-				dec.Args = append(dec.Args, cfg.Str("@"+SvcName(e[1])))
+				dec.Args = append(dec.Args, cfg.Str("@"+g.svc(e[1])))
 			}
 		}
 		for _, e := range g.DecTagged {
@@ -150,7 +175,7 @@ func (g GraphSpec) Config() cfg.Config {
 		}
 		for _, e := range g.DecParams {
 			if e[0] == d {
-				dec.Args = append(dec.Args, cfg.Str("%"+ParamName(e[1])+"%"))
+				dec.Args = append(dec.Args, cfg.Str("%"+g.param(e[1])+"%"))
 			}
 		}
 		c.Decorators = append(c.Decorators, dec)
@@ -216,6 +241,9 @@ func RandomGraph(t *rapid.T, maxSvc, maxTag, maxDec, maxParam int, scopes bool) 
 	}
 	g.Place = rapid.IntRange(0, 2).Draw(t, "place")
 	g.Decoys = rapid.Bool().Draw(t, "decoys")
+	if !g.Decoys && rapid.IntRange(0, 2).Draw(t, "dotted") == 0 {
+		g.Names = 1
+	}
 	return g
 }
 
